@@ -1,6 +1,6 @@
 SPECIFICATION Spec
 CONSTANTS
-  Stride = 2
+  Stride = 3
   MaxDepth = 1
 CONSTRAINT Export
 INVARIANT LawRelocate
